@@ -301,6 +301,9 @@ def C10(ctx):
         # that depends on a payload value stops that evaluation (no verdict), one that depends on the length class is met
         ev["encode::encode_"] = "C06.R2 (all evaluated length cells)"
         ev["<encode::"] = "C06.R2 (all evaluated length cells)"
+        # the bit vector the encoders write into is evaluated with them (push_bits, push_u8, fill, ...)
+        ev["compact::"] = "C06.R2 (all evaluated length cells)"
+        ev["<compact::"] = "C06.R2 (all evaluated length cells)"
     # lookup functions folded over their whole (version, level) domain by the table rules of this run
     if lay and len(lay) == 160:
         ev["hardcode::ecc_to_groups"] = "C02.T1 (160 cells)"
